@@ -213,6 +213,26 @@ func envelopeHarness(r *fw.Run) fw.HarnessSpec {
 				return
 			}
 		}
+		// a rejected document leaves nothing behind: documents that are valid JSON but carry a field of the wrong type
+		// are refused, and the empty body / this body parsed next are what they are on a fresh program
+		for round := 0; round < 4; round++ {
+			for _, bad := range []string{
+				`{"SumType":"TextComment","OpCode":"0","Value":{"Text":"leftover"}}`,
+				`{"SumType":"TextComment","OpCode":-1,"Value":{"Text":"leftover"}}`,
+				`{"SumType":7,"OpCode":3,"Value":{"Text":"leftover"}}`,
+			} {
+				_ = json.Unmarshal([]byte(bad), ev.fresh())
+				e := ev.fresh()
+				if err := json.Unmarshal([]byte(`{}`), e); err != nil {
+					c.Fail("empty-body-after-rejected-document:abi."+ev.kind, "{} does not parse after a rejected document: %v", err)
+					return
+				}
+				if n, op, v := ev.parts(e); n != abi.EmptyMsgOp || op != nil || v != nil {
+					c.Fail("empty-body-after-rejected-document:abi."+ev.kind, "{} parsed after the rejected document %s gives (%q,%v,%v), not the empty body", bad, n, op, v)
+					return
+				}
+			}
+		}
 		c.Outcome("ok")
 	}}}
 }
